@@ -10,7 +10,7 @@ TRANSPARENT = set(IDENTITY_CALLS) | {
     'core::slice::<impl [T]>::iter', 'std::iter::IntoIterator::into_iter', 'std::clone::Clone::clone',
     'std::string::String::as_str', 'std::borrow::ToOwned::to_owned', 'std::string::ToString::to_string',
     'std::vec::Vec::<T, A>::as_slice', 'core::str::<impl str>::as_bytes', 'std::string::String::as_bytes',
-    'std::iter::Iterator::by_ref', 'std::borrow::Cow::<\'_, B>::as_ref',
+    'std::iter::Iterator::by_ref', 'std::ops::Try::branch', 'std::borrow::Cow::<\'_, B>::as_ref',
 }
 
 
@@ -200,15 +200,24 @@ class Terms:
     def truth(self, name, maxstates=20000):
         return self.truth_dnf(name, maxstates)[0]
 
-    def truth_dnf(self, name, maxstates=20000):
+    def falsity_dnf(self, name, maxstates=20000):
+        """DNF over the paths on which a bool function returns false (or a non-constant value)"""
+        return self.truth_dnf(name, maxstates, want=0)
+
+    def truth_dnf(self, name, maxstates=20000, want=1):
         """(canonical string, [frozenset(literals)] or None when opaque)"""
+        rname = name
+        name = (rname, want)
         if name in self._truth:
             return self._truth[name]
         self._truth[name] = ('<rec>', None)
-        if name not in self.prog.bodies:
-            self._truth[name] = (short2(name), None)
+        if rname not in self.prog.bodies:
+            self._truth[name] = (short2(rname), None)
             return self._truth[name]
-        fn = self.prog.fn(name)
+        return self._truth_compute(rname, name, maxstates, want)
+
+    def _truth_compute(self, rname, name, maxstates, want):
+        fn = self.prog.fn(rname)
         eng = Engine(fn, maxstates=maxstates)
         disj = set()
 
@@ -219,7 +228,7 @@ class Terms:
         try:
             hits = eng.explore(mon)
         except RuntimeError:
-            self._truth[name] = ('opaque:' + short2(name), None)
+            self._truth[name] = ('opaque:' + short2(rname), None)
             return self._truth[name]
         for (lab, v), bi, facts, env, key in hits:
             conj = []
@@ -227,7 +236,7 @@ class Terms:
                 final = 'unknown'
             elif v[0] == 'const':
                 if fn.d['ret'] == 'bool':
-                    if v[1] == 0:
+                    if v[1] != want:
                         continue
                     final = None
                 else:
@@ -243,7 +252,7 @@ class Terms:
                 else:
                     conj.append('%s=%s' % (tt, val))
             if final is not None:
-                conj.append(final)
+                conj.append(final if want else '!' + final)
             disj.add(frozenset(conj))
         strs = sorted('&'.join(sorted(c)) or 'true' for c in disj)
         s = ' || '.join(strs) if strs else 'false'
